@@ -43,21 +43,6 @@ LEVELS = [1, 3, 9]
 GEN = os.path.join(C.COQ, "Gen", "JavaBuiltins.v")
 _uniq = itertools.count()
 
-# The filter.  A generated program is in the family of this property iff ALL its features are listed here.
-# Found by experiment on the unchanged tree (props/c12.py:feature_survey); a feature the Java route cannot
-# handle at all is listed in UNSUPPORTED with the reason, so that dropping it is a stated decision.
-SUPPORTED = {
-    "print", "global", "variable", "constant", "local", "locals", "assign-global", "assign-local",
-    "mi-arith", "mi-cmp", "mi-div", "bool-op", "and-or", "if-expr", "if-stmt", "value-seq",
-    "function", "pure-function", "impure-function", "call", "call-stmt", "recursion", "overload", "return",
-    "exit", "exit-value", "for", "while", "break", "iterate", "string-op",
-    "int-arith", "int-cmp", "int-div", "convert",
-    # features the MiniAldor tool may grow; handled by the Java route in the hand-written family
-    "list", "list-op", "record", "record-op", "closure", "lambda", "exception", "try", "throw", "generator",
-}
-UNSUPPORTED = {}
-
-
 _foamj = None
 
 
@@ -846,13 +831,19 @@ MINI_SUPPORTED = {
 }
 
 
+def generate():
+    """(Re)write coq/Gen/JavaBuiltins.v from the current sources (also called by tools/setup.py)."""
+    tr = G.translate(C.SRC, C.R + "/aldor")
+    known_bad = G.known_bad_from(C.known_findings())
+    C.write_if_changed(GEN, G.emit_coq(tr, known_bad))
+    return tr, known_bad
+
+
 def run(rep, tier):
     t0 = time.time()
     quick = tier == "quick"
     exe = C.build_compiler()
-    tr = G.translate(C.SRC, C.R + "/aldor")
-    known_bad = G.known_bad_from(C.known_findings())
-    C.write_if_changed(GEN, G.emit_coq(tr, known_bad))
+    tr, known_bad = generate()
     ties = G.broken_ties(tr)
     base = C.scratch("c12")
     rng = C.rng("c12")
